@@ -51,6 +51,7 @@ MANIFEST = dict(
 THEOREMS = ["C09_compile_correct", "C09_reference_deterministic", "C09_no_stuck_partial", "C09_no_stuck_on_error_partial", "C09_errors_partial",
             "C09_expr_simulation", "C09_list_order", "C09_arg_order", "C09_string_order", "C09_field_order",
             "C09_innermost_binding"]
+COMPOSITION_THEOREMS = ["C01_C09_composition_partial", "C09_no_stuck_typed_fragment"]
 ALLOWED_AXIOMS = []
 FRAGMENT_OPCODES = ["LoadConstant", "GetLocal", "GetUpvalue", "GetLastResult", "Negate", "LogicalNeg", "Factorial",
                     "Add", "Subtract", "Multiply", "Divide", "Power", "LessThan", "GreaterThan", "LessOrEqual",
@@ -1075,6 +1076,12 @@ def known_match(src, kind):
 def run(chk):
     binary, _ = common.build_harness()
     proved = chk.prove("Props.C09", THEOREMS, ["theories/Props/C09.vo", "theories/VM/Exec.vo"], allowed=ALLOWED_AXIOMS)
+    # cross-area composition with the dimension checker model (Props/C01C09.v, VM/DimInstance.v)
+    failure = getattr(chk, "proof_failure", None)
+    proved2 = chk.prove("Props.C01C09", COMPOSITION_THEOREMS, ["theories/Props/C01C09.vo"], allowed=ALLOWED_AXIOMS)
+    if not proved2 or failure:
+        chk.proof_failure = failure or getattr(chk, "proof_failure", "?")
+    proved = proved and proved2
     chk.trusted += [
         "models VM/Compile.v (bytecode_interpreter.rs) and VM/Machine.v (vm.rs) are hand ports, validated on every run "
         "against the real compiler's bytecode (hook numbat::verif::vm::disassembly) and the real results",
